@@ -149,6 +149,8 @@ struct Env<'a> {
     focus: Option<Vec<usize>>,
     /// Largest defender-set product of the framework as built (duplicates included).
     exp_cost: u64,
+    /// Also put the problems to the `crustabri solve` binary on this case.
+    through_cli: bool,
 }
 
 impl Env<'_> {
@@ -772,6 +774,137 @@ fn check_c07<T: HLabel>(env: &mut Env, built: &Built<T>, rng: &mut Rng) {
 }
 
 // ---------------------------------------------------------------------------------------------
+// the same problems through `crustabri solve` (dispatch and encoder selection of the binary)
+// ---------------------------------------------------------------------------------------------
+
+fn cli_dispatch(env: &mut Env, rng: &mut Rng) {
+    use crate::props::cli::{parse_witness, run as run_bin};
+    let abs = env.case.abs.clone();
+    if abs.n == 0 || abs.n > 7 {
+        return;
+    }
+    let dir = env.ctx.out_dir.join(format!("dispatch-{}-{}", env.prop.id(), env.ctx.shard));
+    let _ = std::fs::create_dir_all(&dir);
+    let file = dir.join("instance.af");
+    let mut text = format!("p af {}\n", abs.n);
+    for (a, b) in abs.att.iter() {
+        text.push_str(&format!("{} {}\n", a + 1, b + 1));
+    }
+    if std::fs::write(&file, &text).is_err() {
+        env.ctx.harness_error("cannot write instance file");
+        return;
+    }
+    let bin = env.ctx.repo_bin_dir.join("crustabri");
+    let cost = exp_cost(&abs);
+    let kinds: Vec<QKind> = match env.prop {
+        Prop::C01 => vec![QKind::SE],
+        Prop::C02 => vec![QKind::DC],
+        Prop::C03 => vec![QKind::DS],
+        Prop::C04 => vec![QKind::DC, QKind::DS],
+        Prop::C07 => vec![],
+    };
+    let with_cert = env.prop == Prop::C04;
+    for kind in kinds {
+        for sem in crate::refsem::ALL_SEMS {
+            let problem = format!("{}-{}", kind.name(), sem.name());
+            let a = rng.below(abs.n);
+            for enc in [None, Some("aux_var"), Some("exp"), Some("hybrid")] {
+                if enc == Some("exp") && cost > 2000 {
+                    continue;
+                }
+                let mut args: Vec<String> = vec!["solve".into(), "-f".into(), file.to_string_lossy().to_string(), "-p".into(), problem.clone(), "--logging-level".into(), "off".into()];
+                if kind != QKind::SE {
+                    args.push("-a".into());
+                    args.push((a + 1).to_string());
+                }
+                if let Some(e) = enc {
+                    args.push("--encoding".into());
+                    args.push(e.into());
+                }
+                if with_cert {
+                    args.push("-c".into());
+                }
+                let out = match run_bin(&bin, &args) {
+                    Some(o) => o,
+                    None => {
+                        env.ctx.inconclusive("cli-run-failed-or-timed-out");
+                        continue;
+                    }
+                };
+                env.ctx.eval();
+                env.ctx.count("cli_dispatch_runs");
+                let enc_name = enc.unwrap_or("default");
+                let detail = |what: &str| -> Value {
+                    json!({"what": what, "invocation": args, "exit_status": out.code, "stdout": out.stdout, "instance": text})
+                };
+                if out.code != Some(0) {
+                    env.viol(format!("{}/cli/exit-status/{}/{}", env.prop.id(), problem, enc_name), detail("non-zero exit status"));
+                    continue;
+                }
+                let lines: Vec<&str> = out.stdout.lines().collect();
+                let set_of_line = |l: &str| -> Option<Vec<usize>> {
+                    parse_witness(false, l)?.iter().map(|x| x.parse::<usize>().ok().filter(|k| *k >= 1 && *k <= abs.n).map(|k| k - 1)).collect()
+                };
+                if kind == QKind::SE {
+                    let has = env.oracle.has_ext(sem);
+                    match (lines.first().copied(), has) {
+                        (Some("NO"), Some(false)) => {}
+                        (Some(l), Some(true)) => match set_of_line(l) {
+                            Some(mut set) => {
+                                set.sort();
+                                if env.oracle.is_ext(sem, &set) == Some(false) {
+                                    env.viol(format!("C01/cli/not-an-extension/{}/{}", problem, enc_name), detail("the printed set is not an extension"));
+                                }
+                            }
+                            None => env.viol(format!("C01/cli/not-an-extension/{}/{}", problem, enc_name), detail("unparsable witness line")),
+                        },
+                        (got, exp) => env.viol(format!("C01/cli/answer-class/{}/{}", problem, enc_name), json!({"got": got, "extension_exists": exp, "invocation": args, "instance": text})),
+                    }
+                    continue;
+                }
+                let exp = if kind == QKind::DC { env.oracle.cred(sem, &[a]) } else { env.oracle.skep(sem, &[a]) };
+                let st = match lines.first().copied() {
+                    Some("YES") => true,
+                    Some("NO") => false,
+                    _ => {
+                        env.viol(format!("{}/cli/status-line/{}/{}", env.prop.id(), problem, enc_name), detail("first line is not YES/NO"));
+                        continue;
+                    }
+                };
+                if let Some(e) = exp {
+                    if e != st {
+                        env.viol(
+                            format!("{}/cli/status/{}/{}/{}", env.prop.id(), problem, enc_name, if st { "got-yes" } else { "got-no" }),
+                            detail("status differs from the oracle"),
+                        );
+                        continue;
+                    }
+                }
+                if with_cert {
+                    let due = (kind == QKind::DC && st) || (kind == QKind::DS && !st);
+                    match (due, lines.get(1)) {
+                        (true, Some(l)) => match set_of_line(l) {
+                            Some(mut set) => {
+                                set.sort();
+                                let cert_sem = if kind == QKind::DC && sem == Sem::PR { Sem::CO } else { sem };
+                                let has = set.contains(&a);
+                                if has != (kind == QKind::DC) || env.oracle.is_ext(cert_sem, &set) == Some(false) {
+                                    env.viol(format!("C04/cli/certificate-invalid/{}/{}", problem, enc_name), detail("printed certificate is not a valid witness"));
+                                }
+                            }
+                            None => env.viol(format!("C04/cli/certificate-invalid/{}/{}", problem, enc_name), detail("unparsable witness line")),
+                        },
+                        (true, None) => env.viol(format!("C04/cli/certificate-missing/{}/{}", problem, enc_name), detail("no witness line")),
+                        (false, Some(_)) => env.viol(format!("C04/cli/certificate-unexpected/{}/{}", problem, enc_name), detail("unexpected witness line")),
+                        (false, None) => {}
+                    }
+                }
+            }
+        }
+    }
+}
+
+// ---------------------------------------------------------------------------------------------
 // driver
 // ---------------------------------------------------------------------------------------------
 
@@ -804,6 +937,7 @@ pub fn eval_case(
     case: &StaticCase,
     rng: &mut Rng,
     focus: Option<Vec<usize>>,
+    through_cli: bool,
 ) {
     let mut oracle = match Oracle::for_graph(&case.abs) {
         Ok(o) => o,
@@ -829,7 +963,12 @@ pub fn eval_case(
         contract_errors: 0,
         focus,
         exp_cost: 0,
+        through_cli,
     };
+    if env.through_cli {
+        let mut r2 = Rng::from_path(&[0xc11, env.case.abs.n as u64, env.case.abs.att.len() as u64]);
+        cli_dispatch(&mut env, &mut r2);
+    }
     if case.pres.is_usize() {
         match build_usize(&case.pres) {
             Ok(b) => eval_built(&mut env, &b, rng),
@@ -935,7 +1074,12 @@ pub fn run(ctx: &mut Ctx, prop: Prop) {
             ctx.case_begin(&desc);
             let mut rng = Rng::from_path(&[ctx.seed, crate::cases::fam_hash(family), i, 0xabc]);
             let t0 = std::time::Instant::now();
-            crate::report::guarded(ctx, |ctx| eval_case(ctx, prop, &case, &mut rng, None));
+            let through_cli = prop != Prop::C07
+                && ((matches!(family, "union" | "lattice" | "er") && i < ctx.tier.pick(12, 150))
+                    || (family == "all3" && i % ctx.tier.pick(43, 5) == 2))
+                && case.abs.n >= 1
+                && case.abs.n <= 7;
+            crate::report::guarded(ctx, |ctx| eval_case(ctx, prop, &case, &mut rng, None, through_cli));
             let dt = t0.elapsed().as_millis() as u64;
             ctx.maximum("slowest_case_ms", dt);
             if dt > 5_000 {
@@ -956,6 +1100,7 @@ pub fn replay(ctx: &mut Ctx, prop: Prop, case: &Value, detail: &Value) -> Result
         .and_then(|a| a.as_array())
         .map(|a| a.iter().filter_map(|x| x.as_u64().map(|x| x as usize)).collect::<Vec<_>>())
         .filter(|v: &Vec<usize>| !v.is_empty());
-    eval_case(ctx, prop, &c, &mut rng, focus);
+    let through_cli = case.get("graph").and_then(|g| g.get("n")).and_then(|n| n.as_u64()).map(|n| n >= 1 && n <= 7).unwrap_or(false);
+    eval_case(ctx, prop, &c, &mut rng, focus, through_cli && prop != Prop::C07);
     Ok(())
 }
